@@ -101,7 +101,7 @@ var ctxAbs = []ctx{
 // bases: DESIGN.md Appendix C.
 var bases = []string{
 	"http://h/p/q?x#y", "http://u:p@h:8/a/b/", "https://h", "ws://h/p", "file:///C:/d/e", "file://h/d", "file:///",
-	"a://h/p/q", "a://h", "a:/p/q", "a:/.//p", "a:b", "a:b ?q#f", "a:b  #f",
+	"a://h/p/q", "a://h", "a:/p/q", "a:/.//p", "a:b", "a:b ?q#f", "a:b  #f", "https://:s@h:0/p?q#f",
 }
 
 // refCtx: reference shapes for resolution against the concrete bases.
